@@ -371,6 +371,7 @@ var templates = []string{
 	".[\"a\\(%K)\"]?", ".[\"\\(%K)\"]?", ".[\"a\\(1)\"] = %K", "path(.[\"a\\(%K)\"])?", ".[\"a\\(1)\":]?", "{\"a\\(1)\": %K}", "{(\"a\\(%K)\"): 1}?", ".a[\"b\\(%K)\"]?", "try (.[\"\\(1)\"] = 1) catch .", "@json \"x\\(%K)\"", "@base64 \"\\(%K)\"?", ".[@text \"a\\(1)\"]?", "\"\\(%K)\\(%A)\"",
 	".[%K]?", ".[%K:%K]?", ".[%K:]?", ".[\"a\"]?", ".a[%K]?", ".[%K][%K]?", "%A | .[%K]?", ".[-1[0]]?", ".[1[0]:]?",
 	// constant-path assignment
+	".a? = %K", ".a.b? = %K", ".a?.b = %K", "(.a?) = %K", ".[0]? = %K", ".a[1:]? = %K", ".a?[0] = %K", "try (.a? = %K) catch \"E\"", ".a?.b? = %A", ".[\"a\"]? = %K", ".a? |= %K", ".a? += 1", "path(.a?)", ".a[]? = %K", ".[]?.a = %K", ".a.b?.c = %K", "..? = %K", ".a?? = %K", "(.a?, .b) = %K", ".a? //= %K",
 	".a = %K", ".a.b = %A", ".[%K] = %K?", ".a[%K] = 1?", ".[1:2] = [%K]?", ".a[1:] = %A?", "(.a) = %K", ".a.b.c = %K | .a", "try (.a = %K) catch .", "try (.[%K] = 1) catch .", "try (.a.b = 1) catch .", ".[\"a\"] = %K", "(.a, .b) = %K", ".a = (%K, %K)", ".[%K:%K] = %A?", ".a |= %A", ".a += %K?",
 	// argument inlining: identity and one-instruction arguments
 	"%A + .", ". + %K?", ". + (. | .)?", "[.[]? | . == %K]", "%K as $x | . + $x?", "1 + (label $l | .)", "[1 + (label $l | 1, break $l, 2)]", ". + (reduce . as $x (0; .))?", "[limit(%K; 1, 2, 3)]?", "[range(%K)]?", "[range(.; %K)]?", "has(%K)?", "has(.)?", "ltrimstr(.)?", "ltrimstr(%K)?",
@@ -402,7 +403,7 @@ var biased = []string{
 func enumerate(thorough bool, r *common.Rand) []string {
 	// $v / $w: a variable reference compiles to `pop; load`, so it puts a load at the END of an
 	// alternative and a pop at the START of whatever follows (the join point of a comma/if/try)
-	atoms := []string{".", "1", "\"a\"", "null", ".a", "empty", "[.]", "$__loc__.line", "[]", "-1", "$v", "$w", "\"a\\(1)\""}
+	atoms := []string{".", "1", "\"a\"", "null", ".a", "empty", "[.]", "$__loc__.line", "[]", "-1", "$v", "$w", "\"a\\(1)\"", ".a?", ".[0]?"}
 	un := []string{"[%s]", "{a: %s}", "-(%s)", "(%s)?", ".[%s]?", "[%s, 2]", "{(%s|tostring): 1}", "first(%s)", "(%s) as $x | $x", "[%s] | length", "path(%s)?", "(%s) |= 1", "(%s) = 1", "try (%s) catch 1", "label $l | %s"}
 	bin := []string{"%s, %s", "%s | %s", "%s // %s", "%s + %s", "(%s)[%s]?", "[%s, %s]", "{a: %s, b: %s}", "%s == %s", "%s and %s", "if %s then %s else 3 end", "reduce (%s) as $x (0; %s)", "(%s) as $x | %s"}
 	l1 := atoms
